@@ -127,7 +127,7 @@ CHECKS = {
         text="Both APIs' draw() (stills and animations, all styles per identity, paddings, loops, cache, initial cursor rows incl. forced "
         "scrolling, TTY or not) write to a real pty; at every flush the screen must equal one frame drawn alone at the origin, in the "
         "documented order; after the call the screen equals the last frame plus one newline, cursor visible at column 0 below, attributes "
-        "reset, no unnecessary scroll; rejected sizes raise the documented error before any byte is written; animations are also ended by Ctrl-C during the k-th wait, the k-th frame render and the k-th frame write (a prefix delivered): the call returns silently with the cursor visible and not inside the region.",
+        "reset, no unnecessary scroll; rejected sizes raise the documented error before any byte is written; some draws run after sys.stdout was replaced by another stream on the same terminal; animations are also ended by Ctrl-C during the k-th wait, the k-th frame render and the k-th frame write (a prefix delivered): the call returns silently with the cursor visible and not inside the region.",
         note="Trusts VTerm (incl. iTerm2/wezterm/konsole personalities), the logical clock replacing sleep/time in the library's namespaces, and the padding geometry model.",
     ),
     "C07": dict(
